@@ -185,6 +185,17 @@ let cmd_c12m (args : sx list) : sx =
       res_sx (fun l -> L (List.map n_sx l)) r
   | _ -> failwith "c12m args"
 
+(* the verified answer checker on the implementation's list, the model's answer as reference set *)
+let cmd_c12v (args : sx list) : sx =
+  match args with
+  | [sch; keys; known; out] ->
+      let sch = sx_list (sx_list sx_n) sch in
+      let known = sx_list sx_n known in
+      (match all_missing_bindings N.eqb (t_reqf sch) big_fuel (sx_list sx_n keys) known with
+       | Ok l -> bool_sx (valid_answerb N.eqb (t_reqf sch) known l (sx_list sx_n out))
+       | _ -> A "model-not-ok")
+  | _ -> failwith "c12v args"
+
 let cmd_c12_pinned (args : sx list) : sx =
   match args with
   | [sch; keys; known] ->
@@ -231,6 +242,15 @@ let cmd_c15 (args : sx list) : sx =
        | Panic s -> L [A "panic"; A ("#" ^ site_name s)]
        | OutOfFuel -> L [A "out-of-fuel"])
   | _ -> failwith "c15 args"
+
+(* the verified history validator on what the implementation emitted *)
+let cmd_c15v (args : sx list) : sx =
+  match args with
+  | [calls; outs] ->
+      let calls = sx_list (fun c -> match c with L [g; ord] -> (sx_tgraph g, sx_list sx_n ord) | _ -> failwith "call") calls in
+      let outs = sx_list (fun o -> match o with A "-" -> None | o -> Some (sx_n o)) outs in
+      bool_sx (hist_okb calls outs [])
+  | _ -> failwith "c15v args"
 
 (* ------------------------------------------- strings / matrices: engine *)
 let sx_cv (x : sx) : charvar =
@@ -506,11 +526,13 @@ let dispatch (x : sx) : sx =
   match x with
   | L (A "c12" :: args) -> cmd_c12 args
   | L (A "c12m" :: args) -> cmd_c12m args
+  | L (A "c12v" :: args) -> cmd_c12v args
   | L (A "c12p" :: args) -> cmd_c12_pinned args
   | L (A "c13" :: args) -> cmd_c13 args
   | L (A "c16" :: args) -> cmd_c16 args
   | L (A "c14" :: args) -> cmd_c14 args
-  | L (A "c15" :: args) -> cmd_c15 args
+  | L (A ("c15" | "c15x") :: args) -> cmd_c15 args
+  | L (A "c15v" :: args) -> cmd_c15v args
   | L (A ("tree" | "powerset" | "conditioned" | "with-children" | "pairwise" | "transitive") :: _) -> cmd_c10 x
   | L ((A ("aut-run" | "cvec" | "single" | "naive" | "cert" | "occ")) :: _ as args) -> cmd_engine args
   | L (A ("tab-run" | "tab-cert") :: _) -> cmd_tab x
